@@ -160,7 +160,8 @@ pub enum Tail {
     /// a message has started at `start`, is so far plausible, and is not complete
     Partial { start: usize },
     /// the message starting at `start` is invalid; the decoder must have reported an error by the time
-    /// `due` bytes of the stream have arrived
+    /// `due` bytes of the stream have arrived (a malformed length is decidable as soon as length and id are known:
+    /// the property says it terminates the connection "instead of stalling it")
     Error { start: usize, due: usize, why: &'static str },
     /// a length-prefixed message with id 0x54 ('T'): indistinguishable from a handshake for a decoder that
     /// recognises handshakes by that byte; outside what the property's "unknown ids" is read to cover
@@ -231,7 +232,7 @@ pub fn decode(data: &[u8]) -> Decoded {
                 // already certain to be an error; due once the id byte could have been seen
                 return Decoded {
                     frames,
-                    tail: Tail::Error { start: pos, due: pos + 4 + MAX_FRAME.min(len), why: "oversized frame" },
+                    tail: Tail::Error { start: pos, due: pos + 5, why: "oversized frame" },
                 };
             }
             return Decoded { frames, tail: Tail::Partial { start: pos } };
@@ -243,7 +244,7 @@ pub fn decode(data: &[u8]) -> Decoded {
         if len > MAX_FRAME {
             return Decoded {
                 frames,
-                tail: Tail::Error { start: pos, due: pos + 4 + MAX_FRAME, why: "oversized frame" },
+                tail: Tail::Error { start: pos, due: pos + 5, why: "oversized frame" },
             };
         }
         let fixed: Option<usize> = match id {
@@ -256,14 +257,14 @@ pub fn decode(data: &[u8]) -> Decoded {
             if len != want {
                 return Decoded {
                     frames,
-                    tail: Tail::Error { start: pos, due: pos + 4 + len, why: "wrong length for fixed-size message" },
+                    tail: Tail::Error { start: pos, due: pos + 5, why: "wrong length for fixed-size message" },
                 };
             }
         }
         if id == 7 && len < 9 {
             return Decoded {
                 frames,
-                tail: Tail::Error { start: pos, due: pos + 4 + len, why: "piece message shorter than its header" },
+                tail: Tail::Error { start: pos, due: pos + 5, why: "piece message shorter than its header" },
             };
         }
         if rest.len() < 4 + len {
